@@ -137,6 +137,7 @@ func run(r *mon.Run) {
 		}
 		nops := 1 + g.Intn(5)
 		var accepted []ed25519.PublicKey // in signing order
+		var ibs *integrityblock.IntegrityBlockSigner
 		var seqDesc []string
 		bad := false
 		for k := 0; k < nops && !bad; k++ {
@@ -151,7 +152,11 @@ func run(r *mon.Run) {
 				attrs[k2] = v
 			}
 			before := len(ib.SignatureStack)
-			ibs := integrityblock.IntegrityBlockSigner{SigningStrategy: st, WebBundleHash: hash, IntegrityBlock: ib}
+			// one signer object for the whole sequence in half of the cases, a fresh one per operation otherwise
+			if ibs == nil || i%2 == 1 {
+				ibs = &integrityblock.IntegrityBlockSigner{WebBundleHash: hash, IntegrityBlock: ib}
+			}
+			ibs.SigningStrategy = st
 			var serr error
 			p, pv := r.Call(fmt.Sprintf("lib/%d/op%d/%s", i, k, kind), nil, func() { serr = ibs.SignAndAddNewSignature(recPub, attrs) })
 			seqDesc = append(seqDesc, kind)
